@@ -4,7 +4,9 @@ Model of the two gates a block fetched from a sync source passes
 (isaac/block/importer.go BlockImporter, isaac/block/validator.go
 IsValidBlockFromLocalFS, base/block.go IsValid…WithManifest).
 
-Hashes are ideal: an operation is its fact hash (a number), a state is (hash, height),
+Hashes are ideal: an operation is its fact hash (a number), a state is (hash, height);
+whether the body of an item still hashes to the hashes it carries (Operation.IsValid,
+State.IsValid) is the count of items for which it does not (`badOps`, `badSts`),
 a tree is the list of its node keys and the *root of a tree is identified with that list*
 (collision-free hash), the manifest hash is a number.  Item checksums and the signature of
 the block map are outside the model: every block the model speaks of carries a properly
@@ -30,6 +32,8 @@ structure Blk where
   avpHeight : Nat
   avpRound : Nat
   avpMajority : Option Nat       -- new block of the ACCEPT majority; none = draw
+  badOps : Nat := 0              -- operations of the item whose own IsValid fails (body rewritten under the old hashes)
+  badSts : Nat := 0              -- the same for states
 deriving Repr, DecidableEq
 
 /-- which clauses the code has (extracted from the source on every run) -/
@@ -37,6 +41,11 @@ structure Checks where
   emptyRootChecked : Bool      -- the `n < 1` case of IsValid…TreeWithManifest compares the manifest root with nil
   majorityChecked : Bool       -- IsValidVoteproofsWithManifest compares the ACCEPT majority's new block with the manifest hash
   importerChecksItems : Bool   -- BlockImporter runs the proposal / tree checks before it saves
+  validatorOpSelf : Bool := true        -- IsValidOperationsOfBlock runs Operation.IsValid on every operation, whatever callback it is given
+  validatorStateSelf : Bool := true     -- IsValidStatesOfBlock runs State.IsValid on every state, whatever callback it is given
+  importerOpSelf : Bool := true         -- importOperations runs Operation.IsValid (blocks above genesis)
+  importerGenesisOpSelf : Bool := true  -- IsValidGenesisOperation, which replaces it for a genesis block, runs Operation.IsValid
+  importerStateSelf : Bool := true      -- importStates runs State.IsValid
 deriving Repr, DecidableEq
 
 def nodupB : List Nat → Bool
@@ -68,12 +77,22 @@ def vpOK (c : Checks) (b : Blk) : Bool :=
   b.ivpHeight == b.height && b.avpHeight == b.height && b.ivpRound == b.avpRound &&
   (!c.majorityChecked || b.avpMajority == some b.mHash)
 
+/-- the validator's own-validity pass over the items -/
+def vSelf (c : Checks) (b : Blk) : Bool :=
+  (!c.validatorOpSelf || b.badOps == 0) && (!c.validatorStateSelf || b.badSts == 0)
+
+/-- the importer's: a genesis block's operations go through IsValidGenesisOperation instead -/
+def iSelf (c : Checks) (b : Blk) : Bool :=
+  (!(if b.height == 0 then c.importerGenesisOpSelf else c.importerOpSelf) || b.badOps == 0) &&
+  (!c.importerStateSelf || b.badSts == 0)
+
 /-- IsValidBlockFromLocalFS -/
-def validatorAccepts (c : Checks) (b : Blk) : Bool := proposalOK b && opsOK c b && stsOK c b && vpOK c b
+def validatorAccepts (c : Checks) (b : Blk) : Bool :=
+  (proposalOK b && opsOK c b && stsOK c b && vpOK c b) && vSelf c b
 
 /-- BlockImporter (WriteItem … Save): the voteproofs check, and the item checks only if the code has them -/
 def importerAccepts (c : Checks) (b : Blk) : Bool :=
-  vpOK c b && (!c.importerChecksItems || (proposalOK b && opsOK c b && stsOK c b))
+  (vpOK c b && (!c.importerChecksItems || (proposalOK b && opsOK c b && stsOK c b))) && iSelf c b
 
 /-- the property's notion of a block that is consistent with its manifest -/
 def consistent (b : Blk) : Prop :=
@@ -84,6 +103,7 @@ def consistent (b : Blk) : Prop :=
   (∀ s, s ∈ b.sts → s.2 = b.height) ∧
   b.mStsRoot = (if b.sts = [] then none else some b.stsTree) ∧
   b.ivpHeight = b.height ∧ b.avpHeight = b.height ∧ b.ivpRound = b.avpRound ∧
-  b.avpMajority = some b.mHash
+  b.avpMajority = some b.mHash ∧
+  b.badOps = 0 ∧ b.badSts = 0
 
 end Mitum.BlockImport
